@@ -32,31 +32,40 @@ CONSTANTS NLines,        \* entries per job (sendable lines and host commands)
           NJobs,         \* startprint() calls
           MaxCorrupt, MaxPauses, MaxCancels, NRestore,
           HostPauseAt,   \* entries (1-based) of job 1 that are the host command ";@pause"
-          PauseClearsSentlines   \* TRUE: the code before fix F18
+          PauseClearsSentlines,  \* TRUE: the code before fix F18
+          ResendAnalysed,        \* TRUE: the code as it is -- _send() feeds every transmission, resends included, to the analyser
+          QuietPause             \* TRUE: the user pauses only while nothing is in flight (separates the two causes of F19)
 
 VARIABLES printing, paused, clear, resendfrom, lineno, queueindex, sentlines, priq, job, cancelled,
           wire, replies, expected, accepted, executed,
           ncorrupt, ntx, nokc, piped, m110bad, npause, ncancel, nresume, dead, done,
-          resuming, nput   \* resume() is not atomic: it queues its restore commands one by one, then restarts the print
+          resuming, nput,  \* resume() is not atomic: it queues its restore commands one by one, then restarts the print
+          an, mpos, pauseX, moved   \* where the host's analyser / the machine is (every job line is a relative move of one step)
 vars == <<printing, paused, clear, resendfrom, lineno, queueindex, sentlines, priq, job, cancelled,
-          wire, replies, expected, accepted, executed, ncorrupt, ntx, nokc, piped, m110bad, npause, ncancel, nresume, dead, done, resuming, nput>>
+          wire, replies, expected, accepted, executed, ncorrupt, ntx, nokc, piped, m110bad, npause, ncancel, nresume, dead, done, resuming, nput, an, mpos, pauseX, moved>>
 
 M110 == 0
 PRI  == -2
+\* resume(): "G90", then "G1 X<pauseX> Y<pauseY>", ...: the restore move carries its target (command 200 + x)
+MoveIdx == IF NRestore >= 2 THEN 2 ELSE 1
+IsMove(c) == c >= 200 /\ c < 300
 IsHost(j, q) == j = 1 /\ (q + 1) \in HostPauseAt                 \* entry q (0-based) of job j is ";@pause"
 Cmd(j, q) == 10 * j + q + 1
 JobOf(c) == c \div 10
 Sendable(j) == SelectSeq([i \in 1..NLines |-> i - 1], LAMBDA q : ~IsHost(j, q))
 JobLines(j) == [k \in 1..Len(Sendable(j)) |-> Cmd(j, Sendable(j)[k])]
 
-Tx(n, cmd, opening) ==
+IsJobCmd(c) == c >= 10 /\ c < 100
+TxA(n, cmd, opening, first) ==
   \E bad \in BOOLEAN :
+     /\ an' = IF IsJobCmd(cmd) /\ (first \/ ResendAnalysed) THEN an + 1 ELSE an     \* printcore._send(): analyzer.append(command)
      /\ (bad => (ncorrupt < MaxCorrupt /\ n # PRI))
      /\ wire' = Append(wire, [n |-> n, cmd |-> cmd, bad |-> bad])
      /\ ncorrupt' = IF bad THEN ncorrupt + 1 ELSE ncorrupt
      /\ ntx' = ntx + 1
      /\ piped' = (piped \/ ntx > nokc)
      /\ m110bad' = (m110bad \/ (bad /\ opening))
+Tx(n, cmd, opening) == TxA(n, cmd, opening, TRUE)
 
 Quiet == wire = <<>> /\ replies = <<>>
 
@@ -65,7 +74,7 @@ StartPrint ==
   /\ job' = job + 1 /\ cancelled' = FALSE
   /\ printing' = TRUE /\ clear' = FALSE /\ resendfrom' = -1 /\ queueindex' = 0 /\ lineno' = 0
   /\ Tx(-1, M110, TRUE)
-  /\ UNCHANGED <<paused, sentlines, priq, replies, expected, accepted, executed, nokc, npause, ncancel, nresume, dead, done, resuming, nput>>
+  /\ UNCHANGED <<paused, sentlines, priq, replies, expected, accepted, executed, nokc, npause, ncancel, nresume, dead, done, resuming, nput, mpos, pauseX, moved>>
 
 ClearedLines == [i \in 0..(NLines - 1) |-> 0]
 Dies == resendfrom < lineno /\ resendfrom > -1 /\ sentlines[resendfrom] = 0
@@ -74,31 +83,32 @@ SendNext ==
   /\ dead' = Dies
   /\ IF Dies
        THEN /\ clear' = FALSE
-            /\ UNCHANGED <<printing, paused, resendfrom, lineno, queueindex, sentlines, priq, wire, ncorrupt, ntx, piped, m110bad, done>>
+            /\ UNCHANGED <<printing, paused, resendfrom, lineno, queueindex, sentlines, priq, wire, ncorrupt, ntx, piped, m110bad, done, an, pauseX>>
      ELSE IF resendfrom < lineno /\ resendfrom > -1
-       THEN /\ Tx(resendfrom, sentlines[resendfrom], FALSE)
+       THEN /\ TxA(resendfrom, sentlines[resendfrom], FALSE, FALSE)
             /\ resendfrom' = resendfrom + 1 /\ clear' = FALSE
-            /\ UNCHANGED <<printing, paused, lineno, queueindex, sentlines, priq, done>>
+            /\ UNCHANGED <<printing, paused, lineno, queueindex, sentlines, priq, done, pauseX>>
      ELSE IF priq # <<>>
        THEN /\ Tx(PRI, Head(priq), FALSE) /\ priq' = Tail(priq)
             /\ resendfrom' = -1 /\ clear' = FALSE
-            /\ UNCHANGED <<printing, paused, lineno, queueindex, sentlines, done>>
+            /\ UNCHANGED <<printing, paused, lineno, queueindex, sentlines, done, pauseX>>
      ELSE IF queueindex < NLines /\ IsHost(job, queueindex)
        THEN \* process_host_command(";@pause") -> pause() from the print thread; the entry is stepped over, clear := TRUE
             /\ printing' = FALSE /\ paused' = TRUE /\ queueindex' = queueindex + 1 /\ clear' = TRUE /\ resendfrom' = -1
             /\ sentlines' = IF PauseClearsSentlines THEN ClearedLines ELSE sentlines
-            /\ UNCHANGED <<lineno, priq, wire, ncorrupt, ntx, piped, m110bad, done>>
+            /\ pauseX' = an            \* pause(): self.pauseX = self.analyzer.abs_x
+            /\ UNCHANGED <<lineno, priq, wire, ncorrupt, ntx, piped, m110bad, done, an>>
      ELSE IF queueindex < NLines
        THEN /\ Tx(lineno, Cmd(job, queueindex), FALSE)
             /\ sentlines' = [sentlines EXCEPT ![lineno] = Cmd(job, queueindex)]
             /\ lineno' = lineno + 1 /\ queueindex' = queueindex + 1
             /\ resendfrom' = -1 /\ clear' = FALSE
-            /\ UNCHANGED <<printing, paused, priq, done>>
+            /\ UNCHANGED <<printing, paused, priq, done, pauseX>>
        ELSE /\ printing' = FALSE /\ clear' = TRUE /\ queueindex' = 0 /\ lineno' = 0 /\ resendfrom' = -1
             /\ done' = done \cup {job}
             /\ Tx(-1, M110, FALSE)
-            /\ UNCHANGED <<paused, sentlines, priq>>
-  /\ UNCHANGED <<job, cancelled, replies, expected, accepted, executed, nokc, npause, ncancel, nresume, resuming, nput>>
+            /\ UNCHANGED <<paused, sentlines, priq, pauseX>>
+  /\ UNCHANGED <<job, cancelled, replies, expected, accepted, executed, nokc, npause, ncancel, nresume, resuming, nput, mpos, moved>>
 NeverDies == ~dead
 
 \* printcore._sender(): runs whenever no print thread runs (also while paused); does not wait for clear then
@@ -106,37 +116,39 @@ SenderThread ==
   /\ job > 0 /\ ~printing /\ priq # <<>>
   /\ Tx(PRI, Head(priq), FALSE) /\ priq' = Tail(priq)
   /\ UNCHANGED <<printing, paused, clear, resendfrom, lineno, queueindex, sentlines, job, cancelled,
-                 replies, expected, accepted, executed, nokc, npause, ncancel, nresume, dead, done, resuming, nput>>
+                 replies, expected, accepted, executed, nokc, npause, ncancel, nresume, dead, done, resuming, nput, mpos, pauseX, moved>>
 
 Pause ==
-  /\ printing /\ npause < MaxPauses /\ ~dead
+  /\ printing /\ npause < MaxPauses /\ ~dead /\ (QuietPause => Quiet)
   /\ printing' = FALSE /\ paused' = TRUE /\ clear' = TRUE /\ npause' = npause + 1
+  /\ pauseX' = an                  \* pause(): self.pauseX = self.analyzer.abs_x
   /\ sentlines' = IF PauseClearsSentlines THEN ClearedLines ELSE sentlines
   /\ UNCHANGED <<resendfrom, lineno, queueindex, priq, job, cancelled, wire, replies,
-                 expected, accepted, executed, ncorrupt, ntx, nokc, piped, m110bad, ncancel, nresume, dead, done, resuming, nput>>
+                 expected, accepted, executed, ncorrupt, ntx, nokc, piped, m110bad, ncancel, nresume, dead, done, resuming, nput, an, mpos, moved>>
 \* resume(): send_now() of each restore command (the sender thread may transmit them at once), then printing := TRUE
 ResumeBegin ==
   /\ paused /\ ~resuming
   /\ resuming' = TRUE /\ nput' = 0 /\ nresume' = nresume + 1
   /\ UNCHANGED <<printing, paused, clear, resendfrom, lineno, queueindex, sentlines, priq, job, cancelled, wire, replies,
-                 expected, accepted, executed, ncorrupt, ntx, nokc, piped, m110bad, npause, ncancel, dead, done>>
+                 expected, accepted, executed, ncorrupt, ntx, nokc, piped, m110bad, npause, ncancel, dead, done, an, mpos, pauseX, moved>>
 ResumePut ==
   /\ resuming /\ nput < NRestore
-  /\ priq' = Append(priq, 100 + nput + 1) /\ nput' = nput + 1
+  /\ priq' = Append(priq, IF nput + 1 = MoveIdx THEN 200 + pauseX ELSE 100 + nput + 1) /\ nput' = nput + 1
   /\ UNCHANGED <<printing, paused, clear, resendfrom, lineno, queueindex, sentlines, job, cancelled, wire, replies,
-                 expected, accepted, executed, ncorrupt, ntx, nokc, piped, m110bad, npause, ncancel, nresume, dead, done, resuming>>
+                 expected, accepted, executed, ncorrupt, ntx, nokc, piped, m110bad, npause, ncancel, nresume, dead, done, resuming, an, mpos, pauseX, moved>>
 ResumeGo ==
   /\ resuming /\ nput = NRestore
   /\ paused' = FALSE /\ printing' = TRUE /\ resuming' = FALSE /\ nput' = 0
   /\ UNCHANGED <<clear, resendfrom, lineno, queueindex, sentlines, priq, job, cancelled, wire, replies,
-                 expected, accepted, executed, ncorrupt, ntx, nokc, piped, m110bad, npause, ncancel, nresume, dead, done>>
+                 expected, accepted, executed, ncorrupt, ntx, nokc, piped, m110bad, npause, ncancel, nresume, dead, done, an, mpos, pauseX, moved>>
 \* cancelprint(): while printing or while paused
 Cancel ==
   /\ (printing \/ paused) /\ ~resuming /\ ncancel < MaxCancels /\ ~dead
   /\ printing' = FALSE /\ paused' = FALSE /\ clear' = TRUE /\ cancelled' = TRUE /\ ncancel' = ncancel + 1
+  /\ pauseX' = IF printing THEN an ELSE pauseX
   /\ sentlines' = IF PauseClearsSentlines /\ printing THEN ClearedLines ELSE sentlines
   /\ UNCHANGED <<resendfrom, lineno, queueindex, priq, job, wire, replies,
-                 expected, accepted, executed, ncorrupt, ntx, nokc, piped, m110bad, npause, nresume, dead, done, resuming, nput>>
+                 expected, accepted, executed, ncorrupt, ntx, nokc, piped, m110bad, npause, nresume, dead, done, resuming, nput, an, mpos, moved>>
 
 Firmware ==
   /\ wire # <<>>
@@ -145,16 +157,21 @@ Firmware ==
      /\ IF t.n = PRI
           THEN expected' = expected /\ accepted' = accepted /\ executed' = Append(executed, t.cmd)
                /\ replies' = Append(replies, [k |-> "ok", n |-> 0])
+               \* the restore move of resume(): the machine goes where the host believes it was
+               /\ mpos' = (IF IsMove(t.cmd) THEN t.cmd - 200 ELSE mpos)
+               /\ moved' = (moved \/ (IsMove(t.cmd) /\ t.cmd - 200 # mpos))
         ELSE IF ~t.bad /\ t.cmd = M110
           THEN expected' = t.n + 1 /\ accepted' = accepted /\ executed' = executed
-               /\ replies' = Append(replies, [k |-> "ok", n |-> 0])
+               /\ replies' = Append(replies, [k |-> "ok", n |-> 0]) /\ UNCHANGED <<mpos, moved>>
         ELSE IF ~t.bad /\ t.n = expected
           THEN expected' = expected + 1 /\ accepted' = Append(accepted, t.cmd) /\ executed' = executed
                /\ replies' = Append(replies, [k |-> "ok", n |-> 0])
+               /\ mpos' = mpos + 1 /\ UNCHANGED moved             \* a job line is a relative move of one step
         ELSE expected' = expected /\ accepted' = accepted /\ executed' = executed
              /\ replies' = replies \o <<[k |-> "resend", n |-> expected], [k |-> "ok", n |-> 0]>>
+             /\ UNCHANGED <<mpos, moved>>
   /\ UNCHANGED <<printing, paused, clear, resendfrom, lineno, queueindex, sentlines, priq, job, cancelled,
-                 ncorrupt, ntx, nokc, piped, m110bad, npause, ncancel, nresume, dead, done, resuming, nput>>
+                 ncorrupt, ntx, nokc, piped, m110bad, npause, ncancel, nresume, dead, done, resuming, nput, an, pauseX>>
 
 Reader ==
   /\ replies # <<>>
@@ -164,7 +181,7 @@ Reader ==
      /\ resendfrom' = IF r.k = "resend" THEN r.n ELSE resendfrom
      /\ nokc' = IF r.k = "ok" THEN nokc + 1 ELSE nokc
   /\ UNCHANGED <<printing, paused, lineno, queueindex, sentlines, priq, job, cancelled, wire, expected, accepted,
-                 executed, ncorrupt, ntx, piped, m110bad, npause, ncancel, nresume, dead, done, resuming, nput>>
+                 executed, ncorrupt, ntx, piped, m110bad, npause, ncancel, nresume, dead, done, resuming, nput, an, mpos, pauseX, moved>>
 
 Init ==
   /\ printing = FALSE /\ paused = FALSE /\ clear = TRUE /\ resendfrom = -1 /\ lineno = 0 /\ queueindex = 0
@@ -172,6 +189,7 @@ Init ==
   /\ wire = <<>> /\ replies = <<>> /\ expected = 1 /\ accepted = <<>> /\ executed = <<>>
   /\ ncorrupt = 0 /\ ntx = 0 /\ nokc = 0 /\ piped = FALSE /\ m110bad = FALSE
   /\ npause = 0 /\ ncancel = 0 /\ nresume = 0 /\ dead = FALSE /\ done = {} /\ resuming = FALSE /\ nput = 0
+  /\ an = 0 /\ mpos = 0 /\ pauseX = 0 /\ moved = FALSE
 
 Next == StartPrint \/ SendNext \/ SenderThread \/ Pause \/ ResumeBegin \/ ResumePut \/ ResumeGo \/ Cancel \/ Firmware \/ Reader
 Spec == Init /\ [][Next]_vars /\ WF_vars(SendNext) /\ WF_vars(Firmware) /\ WF_vars(Reader) /\ WF_vars(ResumeBegin)
@@ -190,6 +208,10 @@ CompleteModuloFindings == Quiescent => \A j \in done : (Part(j) = JobLines(j) \/
 RestoreDelivered == Quiescent => Len(executed) = NRestore * nresume
 \* after cancelprint() nothing of the job is transmitted any more
 CancelStops == [][(cancelled /\ cancelled') => \A i \in DOMAIN wire' : i > Len(wire) => wire'[i].n \in {PRI}]_vars
+\* resume() brings the machine back to where it was when the print was paused: the restore move does not displace it.
+\* FAILS on the code as it is (finding F19): a line that is retransmitted is analysed again, and lines still in flight
+\* when pause() is called are counted although the firmware may yet reject them
+ResumeReturns == ~moved \/ m110bad     \* modulo finding F13 (a lost line-number reset)
 Terminates == <>[](Quiescent \/ dead)
 AllJobs == <>(job = NJobs)
 =============================================================================
